@@ -359,10 +359,10 @@ type c14OH struct {
 }
 
 type c14View struct {
-	kind    string
-	es      []c14Ent
-	byPath  map[string][]int
-	hs      []c14OH
+	kind   string
+	es     []c14Ent
+	byPath map[string][]int
+	hs     []c14OH
 	// coverage
 	beyondEOF   bool
 	interleaved bool
@@ -902,6 +902,12 @@ func c14Corpus() []corr.Case {
 	dir := func(n string) c14Ent { return c14Ent{name: n, dir: true} }
 	base := []c14Ent{file("a.txt", "hello"), dir("d/"), file("sub/x", "xyz")}
 	var cs []corr.Case
+	// names that contain ".." without being the parent element
+	for _, k := range []string{"zip-store", "zip-deflate", "tar"} {
+		dots := []c14Ent{file("notes..old.txt", "n"), dir("rel/v1..v2/"), file("rel/v1..v2/changes.diff", "diff"), file("..hidden", "h"), file("a/../b.txt", "b")}
+		cs = append(cs, c14Case(k, dots, "stat "+hp("notes..old.txt"), "open "+hp("rel/v1..v2/changes.diff"), "h.read 0 9", "stat "+hp("..hidden"), "stat "+hp("b.txt"),
+			"open "+hp("/"), "h.readdirnames 1 -1", "open "+hp("rel"), "h.readdirnames 2 -1", "open "+hp("rel/v1..v2"), "h.readdirnames 3 -1"))
+	}
 	// S7: a second open of a tar entry reads from the first handle's position
 	cs = append(cs, c14Case("tar", base, "open "+hp("a.txt"), "h.read 0 5", "h.read 0 1", "open "+hp("a.txt"), "h.read 1 5",
 		"open "+hp("/a.txt"), "h.read 2 2", "h.read 1 1", "h.seek 0 1 0", "h.read 2 3", "h.read 0 4"))
@@ -1080,7 +1086,8 @@ func c14Exhaustive(tier string) []corr.Case {
 	return cs
 }
 
-var c14Segs = []string{"a", "b", "c", "dir", "x.txt", "y"}
+// ("v1..v2", "..x", "n..": ordinary names that merely contain two dots)
+var c14Segs = []string{"a", "b", "c", "dir", "x.txt", "y", "v1..v2", "..x", "n.."}
 
 func c14RandName(r *corr.Rand, depth int) string {
 	n := 1 + r.Intn(depth)
@@ -1344,7 +1351,7 @@ func C14() *corr.Engine {
 		ID: "C14", DriverEngine: "archive",
 		Corpus: c14Corpus, Exhaustive: c14Exhaustive, Random: c14Random,
 		RunImpl: c14RunImpl, Oracle: c14Oracle, NonTrivial: c14NonTrivial,
-		Rule:        "archives built in memory (zip Store, zip Deflate, tar) with read programs; non-trivial = at least 2 handles on one entry whose reads interleave (the reading handle changes at least twice), or a read/seek position beyond the end of the entry; distinct by script hash",
-		Signature:   c14Signature, Classify: c14Classify, CompareLine: c14CompareLine,
+		Rule:      "archives built in memory (zip Store, zip Deflate, tar) with read programs; non-trivial = at least 2 handles on one entry whose reads interleave (the reading handle changes at least twice), or a read/seek position beyond the end of the entry; distinct by script hash",
+		Signature: c14Signature, Classify: c14Classify, CompareLine: c14CompareLine,
 	}
 }
